@@ -30,6 +30,7 @@ import (
 	"math/rand"
 	"os"
 	"sort"
+	"strconv"
 	"strings"
 	"testing"
 	"time"
@@ -200,6 +201,28 @@ type c22TopicSpec struct {
 	Name  string `json:"name"`
 	Via   string `json:"via"`
 	Group string `json:"group"`
+	// NP: partition count the topic is expected to have (CreateTopics asks for it; an auto-created
+	// topic gets the broker's auto-create count). Parts: the partitions the workload and the probes use.
+	NP    int32   `json:"partitions"`
+	Parts []int32 `json:"workload_partitions"`
+}
+
+// c22Pair: two (topic, partition) pairs of a case that were chosen because their
+// names and numbers read the same once written next to each other (How says in which way).
+type c22Pair struct {
+	A   int    `json:"a"`
+	PA  int32  `json:"pa"`
+	B   int    `json:"b"`
+	PB  int32  `json:"pb"`
+	How string `json:"how"`
+}
+
+type c22Case struct {
+	Specs     []c22TopicSpec
+	Steps     []c22Step
+	AutoParts int32 // partition count of auto-created topics in this case's world
+	Family    bool
+	Pairs     []c22Pair
 }
 
 type c22Step struct {
@@ -239,27 +262,38 @@ type c22Template struct {
 	names  []string
 	groups []string
 	del    int
+	// np != nil: a family of legal names that differ by leading / trailing digits and
+	// separators, with the partition count CreateTopics asks for per name; the workload
+	// partitions are then planned by c22PlanParts
+	np []int32
 }
 
 var c22Templates = []c22Template{
-	{"both", []string{"b", "a/../b"}, nil, -1},
-	{"both", []string{"t", "t/0", "t/1"}, nil, -1},
-	{"both", []string{"t", "t/partitions/0"}, nil, 0},
-	{"both", []string{"a", "a//b", "a/b", "a/./b"}, nil, -1},
-	{"both", []string{"a", "a/", "./a"}, nil, -1},
-	{"both", []string{"0", ".", "/"}, nil, -1},
-	{"both", []string{"b", "../default/b", ".."}, nil, -1},
-	{"mem", []string{"a", "a:b", "a:0"}, nil, 0},
-	{"mem", []string{"a:b", "b"}, []string{"g", "g:a"}, -1},
-	{"etcd", []string{"x/offsets/b", "b"}, []string{"g", "g/offsets/x"}, -1},
-	{"etcd", []string{"x/offsets/b", "b"}, nil, 1},
-	{"etcd", []string{"t", "t/x"}, nil, 0},
-	{"etcd", []string{"b", "b/partitions"}, nil, 1},
-	{"etcd", []string{"t", "t/partitions/0", "t/partitions/1"}, nil, 1},
-	{"both", []string{"t", "t2", "T", "t.2", "t_2"}, nil, 0},
-	{"both", []string{c22Long("k", 249), c22Long("k", 248) + "y", c22Long("k", 200)}, nil, 0},
-	{"both", []string{"a.b", "a_b", "a-b", "A.B"}, nil, 1},
-	{"both", []string{"t", "t:0", "t%2F0", "t 0", "t\\0"}, nil, 0},
+	{"both", []string{"b", "a/../b"}, nil, -1, nil},
+	{"both", []string{"t", "t/0", "t/1"}, nil, -1, nil},
+	{"both", []string{"t", "t/partitions/0"}, nil, 0, nil},
+	{"both", []string{"a", "a//b", "a/b", "a/./b"}, nil, -1, nil},
+	{"both", []string{"a", "a/", "./a"}, nil, -1, nil},
+	{"both", []string{"0", ".", "/"}, nil, -1, nil},
+	{"both", []string{"b", "../default/b", ".."}, nil, -1, nil},
+	{"mem", []string{"a", "a:b", "a:0"}, nil, 0, nil},
+	{"mem", []string{"a:b", "b"}, []string{"g", "g:a"}, -1, nil},
+	{"etcd", []string{"x/offsets/b", "b"}, []string{"g", "g/offsets/x"}, -1, nil},
+	{"etcd", []string{"x/offsets/b", "b"}, nil, 1, nil},
+	{"etcd", []string{"t", "t/x"}, nil, 0, nil},
+	{"etcd", []string{"b", "b/partitions"}, nil, 1, nil},
+	{"etcd", []string{"t", "t/partitions/0", "t/partitions/1"}, nil, 1, nil},
+	{"both", []string{"t", "t2", "T", "t.2", "t_2"}, nil, 0, nil},
+	{"both", []string{c22Long("k", 249), c22Long("k", 248) + "y", c22Long("k", 200)}, nil, 0, nil},
+	{"both", []string{"a.b", "a_b", "a-b", "A.B"}, nil, 1, nil},
+	{"both", []string{"t", "t:0", "t%2F0", "t 0", "t\\0"}, nil, 0, nil},
+	// families of LEGAL names in which one name is another plus digits (in front or behind, with or
+	// without '-', '.', '_'), on topics with enough partitions that name+number of one pair reads like
+	// name+number of another pair ("t1"+"0" / "t"+"10", "1"+"1a" / "11"+"a") or like the other name itself
+	{"both", []string{"t", "t1", "t2"}, nil, -1, []int32{25, 3, 6}},
+	{"both", []string{"ev", "ev1", "ev-1", "ev.1", "ev_1"}, nil, 1, []int32{14, 1, 2, 2, 2}},
+	{"both", []string{"a", "1a", "a1", "a12"}, nil, -1, []int32{20, 4, 13, 2}},
+	{"both", []string{"m-", "m-1", "m.", "m.2", "m"}, nil, 0, []int32{16, 6, 24, 4, 3}},
 }
 
 func c22TemplatesFor(kind string) []c22Template {
@@ -272,20 +306,248 @@ func c22TemplatesFor(kind string) []c22Template {
 	return out
 }
 
-func c22GenCase(rng *rand.Rand, kind string, ns string, ci int) ([]c22TopicSpec, []c22Step) {
-	if tpl := c22TemplatesFor(kind); ci < len(tpl) {
-		var specs []c22TopicSpec
+func c22GenCase(rng *rand.Rand, kind string, ns string, ci int) *c22Case {
+	tpl := c22TemplatesFor(kind)
+	if ci < len(tpl) {
+		c := &c22Case{AutoParts: 2, Family: tpl[ci].np != nil}
 		for i, n := range tpl[ci].names {
 			g := "g"
 			if i < len(tpl[ci].groups) {
 				g = tpl[ci].groups[i]
 			}
-			specs = append(specs, c22TopicSpec{Name: n, Via: c22Vias[rng.Intn(len(c22Vias))], Group: g})
+			c.Specs = append(c.Specs, c22TopicSpec{Name: n, Via: c22Vias[rng.Intn(len(c22Vias))], Group: g, NP: 2, Parts: []int32{0, 1}})
 		}
-		return specs, c22GenSteps(rng, kind, specs, tpl[ci].del, false)
+		if c.Family {
+			c.AutoParts = 11 + int32(rng.Intn(15))
+			for i := range c.Specs {
+				c.Specs[i].NP = tpl[ci].np[i]
+				if c.Specs[i].Via != "create_topics" {
+					c.Specs[i].NP = c.AutoParts
+				}
+			}
+			c22PlanParts(rng, c)
+		}
+		c.Steps = c22GenSteps(rng, kind, c.Specs, tpl[ci].del, false)
+		return c
 	}
-	specs := c22GenNames(rng, kind, ns)
-	return specs, c22GenSteps(rng, kind, specs, -1, true)
+	// every 4th generated case of the InMemoryStore part (every 2nd of the much shorter EtcdStore part) is a digit family
+	if k := ci - len(tpl); kind == "mem" && k%4 == 3 || kind == "etcd" && k%2 == 1 {
+		c := c22GenFamily(rng, kind)
+		c.Steps = c22GenSteps(rng, kind, c.Specs, -1, true)
+		return c
+	}
+	c := &c22Case{AutoParts: 2, Specs: c22GenNames(rng, kind, ns)}
+	c.Steps = c22GenSteps(rng, kind, c.Specs, -1, true)
+	return c
+}
+
+// ---------------------------------------------------------------- digit families
+
+var c22FamBases = []string{"t", "a", "orders", "log", "x1", "0", "Ab", "ev.log", "q_"}
+var c22FamDigits = []string{"1", "2", "1", "2", "3", "10", "12", "0", "20", "7"}
+var c22FamSeps = []string{"", "", "", "-", ".", "_"}
+
+func c22AllDigits(s string) bool {
+	if s == "" {
+		return false
+	}
+	for i := 0; i < len(s); i++ {
+		if s[i] < '0' || s[i] > '9' {
+			return false
+		}
+	}
+	return true
+}
+
+// c22GenFamily: 2-5 legal names around one base name x - x itself, x+digits, x+sep+digits,
+// digits+x, digits+sep+x, x+sep, x+digits+digits - created with 1..3 or 11..25 partitions
+// (auto-created ones get the case's auto-create count, 11..25).
+func c22GenFamily(rng *rand.Rand, kind string) *c22Case {
+	c := &c22Case{Family: true, AutoParts: 11 + int32(rng.Intn(15))}
+	x := c22FamBases[rng.Intn(len(c22FamBases))]
+	k := 2 + rng.Intn(4)
+	if kind == "etcd" {
+		k = 2 + rng.Intn(2)
+	}
+	seen := map[string]bool{}
+	add := func(name string) {
+		if seen[name] || metadataNameTooLong(name) {
+			return
+		}
+		seen[name] = true
+		sp := c22TopicSpec{Name: name, Via: c22Vias[rng.Intn(len(c22Vias))], Group: "g"}
+		switch v := rng.Intn(8); {
+		case v < 5:
+			sp.NP = 11 + int32(rng.Intn(15))
+		case v < 7:
+			sp.NP = 1 + int32(rng.Intn(3))
+		default:
+			sp.NP = c.AutoParts
+		}
+		if sp.Via != "create_topics" {
+			sp.NP = c.AutoParts
+		}
+		c.Specs = append(c.Specs, sp)
+	}
+	if rng.Intn(10) < 8 {
+		add(x)
+	}
+	last := x
+	for tries := 0; len(c.Specs) < k && tries < 40; tries++ {
+		d := c22FamDigits[rng.Intn(len(c22FamDigits))]
+		sep := c22FamSeps[rng.Intn(len(c22FamSeps))]
+		var name string
+		switch rng.Intn(8) {
+		case 0, 1, 2:
+			name = x + sep + d
+		case 3:
+			name = d + sep + x
+		case 4:
+			name = x + []string{"-", ".", "_"}[rng.Intn(3)]
+		case 5:
+			name = last + d // one more digit on a name of the family: "t1" and "t12"
+		case 6:
+			name = d + last
+		default:
+			name = x + d
+		}
+		add(name)
+		last = name
+	}
+	rng.Shuffle(len(c.Specs), func(i, j int) { c.Specs[i], c.Specs[j] = c.Specs[j], c.Specs[i] })
+	c22PlanParts(rng, c)
+	return c
+}
+
+func metadataNameTooLong(name string) bool { return len(name) > 200 }
+
+// c22ConcatPairs: the partitions pa of topic a and pb of topic b (both within the partition counts) for which
+// a+pa and b+pb (a = b+digits), or pa+a and pb+b (a = digits+b), are the same string; and, for a = b+[sep]+digits
+// or a = digits+[sep]+b, the partition of b whose number is that digit string (the NAME a reads like b's partition).
+func c22ConcatPairs(a, b string, npa, npb int32) (out [][3]int32) {
+	const (
+		suffix = 0
+		prefix = 1
+		isPart = 2
+	)
+	if len(a) <= len(b) {
+		return nil
+	}
+	trimSep := func(s string, front bool) string {
+		if s != "" && front && strings.ContainsRune("-._", rune(s[0])) {
+			return s[1:]
+		}
+		if s != "" && !front && strings.ContainsRune("-._", rune(s[len(s)-1])) {
+			return s[:len(s)-1]
+		}
+		return s
+	}
+	if strings.HasPrefix(a, b) {
+		rest := a[len(b):]
+		if c22AllDigits(rest) && rest[0] != '0' {
+			for pa := int32(0); pa < npa; pa++ {
+				if v, err := strconv.Atoi(rest + strconv.Itoa(int(pa))); err == nil && int32(v) < npb {
+					out = append(out, [3]int32{pa, int32(v), suffix})
+				}
+			}
+		}
+		if d := trimSep(rest, true); c22AllDigits(d) && (d == "0" || d[0] != '0') {
+			if v, err := strconv.Atoi(d); err == nil && int32(v) < npb {
+				out = append(out, [3]int32{-1, int32(v), isPart})
+			}
+		}
+	}
+	if strings.HasSuffix(a, b) {
+		rest := a[:len(a)-len(b)]
+		if c22AllDigits(rest) {
+			for pa := int32(1); pa < npa; pa++ {
+				if v, err := strconv.Atoi(strconv.Itoa(int(pa)) + rest); err == nil && int32(v) < npb {
+					out = append(out, [3]int32{pa, int32(v), prefix})
+				}
+			}
+		}
+		if d := trimSep(rest, false); c22AllDigits(d) && (d == "0" || d[0] != '0') {
+			if v, err := strconv.Atoi(d); err == nil && int32(v) < npb {
+				out = append(out, [3]int32{-1, int32(v), isPart})
+			}
+		}
+	}
+	return out
+}
+
+var c22PairHow = []string{"name+number", "number+name", "name_reads_like_partition"}
+
+// c22PlanParts chooses the workload partitions of a family case: up to 4 per topic, first the
+// partners found by c22ConcatPairs (a random selection of them), then random other partitions so
+// that every topic with more than one partition uses at least two.
+func c22PlanParts(rng *rand.Rand, c *c22Case) {
+	var cand []c22Pair
+	for ai, a := range c.Specs {
+		for bi, b := range c.Specs {
+			if ai == bi {
+				continue
+			}
+			for _, p := range c22ConcatPairs(a.Name, b.Name, a.NP, b.NP) {
+				cand = append(cand, c22Pair{A: ai, PA: p[0], B: bi, PB: p[1], How: c22PairHow[p[2]]})
+			}
+		}
+	}
+	rng.Shuffle(len(cand), func(i, j int) { cand[i], cand[j] = cand[j], cand[i] })
+	// pairs of two partitions first (at most 4), then "name reads like a partition" pairs into the room left
+	sort.SliceStable(cand, func(i, j int) bool { return cand[i].PA >= 0 && cand[j].PA < 0 })
+	parts := make([]map[int32]bool, len(c.Specs))
+	for i := range parts {
+		parts[i] = map[int32]bool{}
+	}
+	for i := range c.Specs {
+		c.Specs[i].Parts = nil
+	}
+	use := func(ti int, p int32) {
+		if !parts[ti][p] {
+			parts[ti][p] = true
+			c.Specs[ti].Parts = append(c.Specs[ti].Parts, p)
+		}
+	}
+	room := func(ti int, p int32) bool { return parts[ti][p] || len(parts[ti]) < 4 }
+	for _, p := range cand {
+		if len(c.Pairs) >= 6 || len(c.Pairs) >= 4 && p.PA >= 0 {
+			continue
+		}
+		if p.PA < 0 {
+			// the partner is the topic as a whole: any of its partitions, preferably a low one
+			p.PA = int32(rng.Intn(int(min(c.Specs[p.A].NP, 2))))
+		}
+		if !room(p.A, p.PA) || !room(p.B, p.PB) {
+			continue
+		}
+		use(p.A, p.PA)
+		use(p.B, p.PB)
+		c.Pairs = append(c.Pairs, p)
+	}
+	for ti := range c.Specs {
+		np := c.Specs[ti].NP
+		want := 2
+		if np < 2 {
+			want = 1
+		}
+		for tries := 0; len(parts[ti]) < want && tries < 100; tries++ {
+			switch rng.Intn(4) {
+			case 0:
+				use(ti, 0)
+			case 1:
+				use(ti, min(1, np-1))
+			case 2:
+				use(ti, np-1)
+			default:
+				use(ti, int32(rng.Intn(int(np))))
+			}
+		}
+		for _, p := range c.Specs[ti].Parts {
+			if p < 0 || p >= np {
+				panic(fmt.Sprintf("c22PlanParts: partition %d outside 0..%d of %q", p, np-1, c.Specs[ti].Name))
+			}
+		}
+	}
 }
 
 func c22GenNames(rng *rand.Rand, kind string, ns string) []c22TopicSpec {
@@ -305,7 +567,7 @@ func c22GenNames(rng *rand.Rand, kind string, ns string) []c22TopicSpec {
 			return
 		}
 		seen[name] = true
-		specs = append(specs, c22TopicSpec{Name: name, Via: c22Vias[rng.Intn(len(c22Vias))], Group: group})
+		specs = append(specs, c22TopicSpec{Name: name, Via: c22Vias[rng.Intn(len(c22Vias))], Group: group, NP: 2, Parts: []int32{0, 1}})
 	}
 	if rng.Intn(10) < 7 {
 		add(x, "g")
@@ -385,17 +647,30 @@ func c22GenSteps(rng *rand.Rand, kind string, specs []c22TopicSpec, lastDelete i
 		if kind == "etcd" {
 			np = 2 + rng.Intn(5)/4
 		}
+		// every workload partition gets a produce and a commit; the remaining produces go to any of them
+		parts := specs[ti].Parts
+		np += len(parts) - 2
 		var body []c22Step
 		for i := 0; i < np; i++ {
-			p := int32(i % 2)
-			if i >= 2 {
-				p = int32(rng.Intn(2))
+			var p int32
+			if i < len(parts) {
+				p = parts[i]
+			} else {
+				p = parts[rng.Intn(len(parts))]
 			}
 			seq++
 			body = append(body, c22Step{Kind: "produce", T: ti, P: p, N: 1 + rng.Intn(3), Seq: seq})
 		}
-		body = append(body, c22Step{Kind: "commit", T: ti, P: 0, Off: int64(100*(ti+1) + rng.Intn(50))})
-		body = append(body, c22Step{Kind: "commit", T: ti, P: 1, Off: int64(1000*(ti+1) + rng.Intn(500))})
+		for j, p := range parts {
+			switch j {
+			case 0:
+				body = append(body, c22Step{Kind: "commit", T: ti, P: p, Off: int64(100*(ti+1) + rng.Intn(50))})
+			case 1:
+				body = append(body, c22Step{Kind: "commit", T: ti, P: p, Off: int64(1000*(ti+1) + rng.Intn(500))})
+			default:
+				body = append(body, c22Step{Kind: "commit", T: ti, P: p, Off: int64(100000*j + 1000*(ti+1) + rng.Intn(500))})
+			}
+		}
 		body = append(body, c22Step{Kind: "alter", T: ti, Val: fmt.Sprint(60000*(ti+1) + rng.Intn(1000))})
 		rng.Shuffle(len(body), func(i, j int) { body[i], body[j] = body[j], body[i] })
 		ops = append(ops, body...)
@@ -560,10 +835,11 @@ type c22World struct {
 	members map[string]c22Member
 	nInst   int
 	fallbackCommits int
+	autoParts       int32 // partition count of auto-created topics
 }
 
-func c22NewWorld(kind string, e *c22Etcd, cacheOn bool) (*c22World, error) {
-	w := &c22World{kind: kind, s3: newVS3(), etcd: e, cacheOn: cacheOn, members: map[string]c22Member{}}
+func c22NewWorld(kind string, e *c22Etcd, cacheOn bool, autoParts int32) (*c22World, error) {
+	w := &c22World{kind: kind, s3: newVS3(), etcd: e, cacheOn: cacheOn, members: map[string]c22Member{}, autoParts: autoParts}
 	if kind == "etcd" {
 		if !e.wipe() {
 			return nil, fmt.Errorf("etcd wipe/sync failed")
@@ -602,7 +878,7 @@ func (w *c22World) boot() error {
 	h := newHandler(w.store, view, c22Broker, discardLogger())
 	h.flushOnAck = true
 	h.autoCreateTopics = true
-	h.autoCreatePartitions = 2
+	h.autoCreatePartitions = w.autoParts
 	h.allowAdminAPIs = true
 	h.logConfig.Buffer = storage.WriteBufferConfig{MaxBytes: 1 << 30}
 	h.logConfig.Segment.IndexIntervalMessages = 1
@@ -815,23 +1091,27 @@ func (w *c22World) commit(group, topic string, p int32, off int64) bool {
 	return err == nil
 }
 
-func (w *c22World) committed(group, topic string) ([2]int64, string) {
-	var out [2]int64
+func (w *c22World) committed(group, topic string, parts []int32) (map[int32]int64, string) {
+	out := map[int32]int64{}
 	req := kmsg.NewPtrOffsetFetchRequest()
 	req.Group = group
 	rt := kmsg.NewOffsetFetchRequestTopic()
 	rt.Topic = topic
-	rt.Partitions = []int32{0, 1}
+	rt.Partitions = append([]int32(nil), parts...)
 	req.Topics = append(req.Topics, rt)
 	resp := kmsg.NewPtrOffsetFetchResponse()
 	if err := w.call(protocol.APIKeyOffsetFetch, 5, req, resp); err != nil {
 		return out, "offset fetch: " + err.Error()
 	}
-	if resp.ErrorCode != 0 || len(resp.Topics) != 1 || len(resp.Topics[0].Partitions) != 2 {
+	if resp.ErrorCode != 0 || len(resp.Topics) != 1 || len(resp.Topics[0].Partitions) != len(parts) {
 		return out, fmt.Sprintf("offset fetch: code %d, %d topics", resp.ErrorCode, len(resp.Topics))
 	}
+	asked := map[int32]bool{}
+	for _, p := range parts {
+		asked[p] = true
+	}
 	for _, p := range resp.Topics[0].Partitions {
-		if p.ErrorCode != 0 || p.Partition < 0 || p.Partition > 1 {
+		if _, dup := out[p.Partition]; p.ErrorCode != 0 || !asked[p.Partition] || dup {
 			return out, fmt.Sprintf("offset fetch partition %d: code %d", p.Partition, p.ErrorCode)
 		}
 		out[p.Partition] = p.Offset
@@ -904,10 +1184,10 @@ type c22TState struct {
 	rejectHow string
 	retired   bool
 	tainted   bool
-	next      [2]int64
-	tags      [2][]string
-	hasCommit [2]bool
-	committed [2]int64
+	next      map[int32]int64 // by partition number (the workload partitions spec.Parts)
+	tags      map[int32][]string
+	hasCommit map[int32]bool
+	committed map[int32]int64
 	hasRet    bool
 	ret       string
 	done      map[string]bool
@@ -919,8 +1199,16 @@ type c22TState struct {
 
 func (ts *c22TState) live() bool { return ts.accepted && !ts.retired && !ts.tainted }
 func (ts *c22TState) fullWorkload() bool {
-	return ts.done["p0"] && ts.done["p1"] && ts.done["commit"] && ts.done["alter"]
+	for _, p := range ts.spec.Parts {
+		if !ts.done[fmt.Sprintf("p%d", p)] {
+			return false
+		}
+	}
+	return ts.done["commit"] && ts.done["alter"]
 }
+
+// lastPart: the partition an auto-creating first request names (partition 1 of the two-partition topics)
+func (ts *c22TState) lastPart() int32 { return ts.spec.Parts[len(ts.spec.Parts)-1] }
 
 type c22Dev struct {
 	Step    int    `json:"step"`
@@ -959,7 +1247,7 @@ func c22Run(w *c22World, specs []c22TopicSpec, steps []c22Step, only int, caseID
 	out := &c22Outcome{}
 	shared := map[string]bool{"/kafscale/metadata/snapshot": true}
 	for i, sp := range specs {
-		out.topics = append(out.topics, &c22TState{spec: sp, idx: i, done: map[string]bool{}, s3W: map[string]bool{}, s3Dirs: map[string]bool{}, s3R: map[string]bool{}, etcdPut: map[string]bool{}})
+		out.topics = append(out.topics, &c22TState{spec: sp, idx: i, next: map[int32]int64{}, tags: map[int32][]string{}, hasCommit: map[int32]bool{}, committed: map[int32]int64{}, done: map[string]bool{}, s3W: map[string]bool{}, s3Dirs: map[string]bool{}, s3R: map[string]bool{}, etcdPut: map[string]bool{}})
 		shared[metadata.ConsumerGroupKey(sp.Group)] = true
 	}
 	isShared := func(k string) bool {
@@ -1021,7 +1309,7 @@ func c22Run(w *c22World, specs []c22TopicSpec, steps []c22Step, only int, caseID
 	}
 
 	check := func(ts *c22TState) (string, string) {
-		for p := int32(0); p < 2; p++ {
+		for _, p := range ts.spec.Parts {
 			res := w.exec(plogReq{Kind: "listoffsets", Topic: ts.spec.Name, Partition: p, Offset: -1})
 			if res.Err != "" || res.Code != 0 {
 				return "probe_error", fmt.Sprintf("ListOffsets(latest) p%d: err=%q code=%d", p, res.Err, res.Code)
@@ -1030,7 +1318,7 @@ func c22Run(w *c22World, specs []c22TopicSpec, steps []c22Step, only int, caseID
 				return "next_offset", fmt.Sprintf("ListOffsets(latest) p%d = %d, the topic's own produces imply %d", p, res.HW, ts.next[p])
 			}
 		}
-		for p := int32(0); p < 2; p++ {
+		for _, p := range ts.spec.Parts {
 			got, errStr := w.readback(ts.spec.Name, p)
 			want := ts.tags[p]
 			foreign := ""
@@ -1051,12 +1339,12 @@ func c22Run(w *c22World, specs []c22TopicSpec, steps []c22Step, only int, caseID
 				return "readback_mismatch", fmt.Sprintf("Fetch p%d read %v, own produces imply %v", p, got, want)
 			}
 		}
-		if ts.hasCommit[0] || ts.hasCommit[1] {
-			got, errStr := w.committed(ts.spec.Group, ts.spec.Name)
+		if len(ts.hasCommit) > 0 {
+			got, errStr := w.committed(ts.spec.Group, ts.spec.Name, ts.spec.Parts)
 			if errStr != "" {
 				return "probe_error", errStr
 			}
-			for p := 0; p < 2; p++ {
+			for _, p := range ts.spec.Parts {
 				if ts.hasCommit[p] && got[p] != ts.committed[p] {
 					return "committed_offset", fmt.Sprintf("OffsetFetch(group %q) p%d = %d, the topic's own last commit is %d", ts.spec.Group, p, got[p], ts.committed[p])
 				}
@@ -1114,7 +1402,7 @@ func c22Run(w *c22World, specs []c22TopicSpec, steps []c22Step, only int, caseID
 					req.TimeoutMillis = 1000
 					rt := kmsg.NewCreateTopicsRequestTopic()
 					rt.Topic = name
-					rt.NumPartitions = 2
+					rt.NumPartitions = ts.spec.NP
 					rt.ReplicationFactor = 1
 					req.Topics = append(req.Topics, rt)
 					resp := kmsg.NewPtrCreateTopicsResponse()
@@ -1124,15 +1412,16 @@ func c22Run(w *c22World, specs []c22TopicSpec, steps []c22Step, only int, caseID
 						how = fmt.Sprintf("code %d", resp.Topics[0].ErrorCode)
 					}
 				case "produce":
-					tag := c22Tag(caseID, ts.idx, 1, 0)
-					res := w.exec(plogReq{Kind: "produce", Topic: name, Partition: 1, Acks: -1, Batch: c22Batch(tag, 1)})
-					how = fmt.Sprintf("produce p1: err=%q code=%d base=%d", res.Err, res.Code, res.Base)
+					lp := ts.lastPart()
+					tag := c22Tag(caseID, ts.idx, lp, 0)
+					res := w.exec(plogReq{Kind: "produce", Topic: name, Partition: lp, Acks: -1, Batch: c22Batch(tag, 1)})
+					how = fmt.Sprintf("produce p%d: err=%q code=%d base=%d", lp, res.Err, res.Code, res.Base)
 					if res.Err == "" && res.Code == 0 {
 						if res.Base != 0 {
 							note = fmt.Sprintf("first produce to the new topic got base offset %d", res.Base)
 						}
-						ts.tags[1] = append(ts.tags[1], fmt.Sprintf("%d=%s#0", ts.next[1], tag))
-						ts.next[1]++
+						ts.tags[lp] = append(ts.tags[lp], fmt.Sprintf("%d=%s#0", ts.next[lp], tag))
+						ts.next[lp]++
 					}
 				case "metadata":
 					req := kmsg.NewPtrMetadataRequest()
@@ -1147,20 +1436,20 @@ func c22Run(w *c22World, specs []c22TopicSpec, steps []c22Step, only int, caseID
 						how = "ok"
 					}
 				case "fetch":
-					res := w.exec(plogReq{Kind: "fetch", Topic: name, Partition: 1, Offset: 0, MaxBytes: 1 << 20})
-					how = fmt.Sprintf("fetch p1: err=%q code=%d", res.Err, res.Code)
+					res := w.exec(plogReq{Kind: "fetch", Topic: name, Partition: ts.lastPart(), Offset: 0, MaxBytes: 1 << 20})
+					how = fmt.Sprintf("fetch p%d: err=%q code=%d", ts.lastPart(), res.Err, res.Code)
 				case "listoffsets":
-					res := w.exec(plogReq{Kind: "listoffsets", Topic: name, Partition: 1, Offset: -2})
-					how = fmt.Sprintf("listoffsets(earliest) p1: err=%q code=%d", res.Err, res.Code)
+					res := w.exec(plogReq{Kind: "listoffsets", Topic: name, Partition: ts.lastPart(), Offset: -2})
+					how = fmt.Sprintf("listoffsets(earliest) p%d: err=%q code=%d", ts.lastPart(), res.Err, res.Code)
 				}
 				listed, err := w.listTopics()
 				switch {
 				case err != nil:
 					ts.rejectHow = "metadata(all) failed: " + err.Error()
-				case listed[name] == 2:
+				case listed[name] == int(ts.spec.NP):
 					ts.accepted = true
 				case listed[name] != 0:
-					ts.rejectHow = fmt.Sprintf("listed with %d partitions (workload needs 2)", listed[name])
+					ts.rejectHow = fmt.Sprintf("listed with %d partitions (workload expects %d)", listed[name], ts.spec.NP)
 				default:
 					ts.rejectHow = how
 				}
@@ -1333,7 +1622,11 @@ func c22Mechanism(kind string, a *c22TState, dev c22Dev, trig c22Step, all []*c2
 			// deleteTopicOffsets(b) removes the etcd prefix /kafscale/topics/<b>/; a's offsets live
 			// under /kafscale/topics/<a>/partitions/<p>/ (hit for a = b+"/…", b = a+"/partitions", b = a+"/partitions/<p>")
 			if kind == "etcd" {
-				for _, k := range []string{a.spec.Name + "/partitions/0/next_offset", a.spec.Name + "/partitions/1/next_offset", a.spec.Name + "/config"} {
+				keys := []string{a.spec.Name + "/config"}
+				for _, p := range a.spec.Parts {
+					keys = append(keys, fmt.Sprintf("%s/partitions/%d/next_offset", a.spec.Name, p))
+				}
+				for _, k := range keys {
 					if strings.HasPrefix(k, b.spec.Name+"/") {
 						return "etcd_delete_slash_prefix", b
 					}
@@ -1371,6 +1664,14 @@ func c22Mechanism(kind string, a *c22TState, dev c22Dev, trig c22Step, all []*c2
 	return "unexplained:" + dev.What + ":after_" + who, nil
 }
 
+func c22PairStrings(c *c22Case) []string {
+	var out []string
+	for _, p := range c.Pairs {
+		out = append(out, fmt.Sprintf("%s[%d] ~ %s[%d] (%s)", c.Specs[p.A].Name, p.PA, c.Specs[p.B].Name, p.PB, p.How))
+	}
+	return out
+}
+
 // ---------------------------------------------------------------- case driver
 
 type c22Leg struct {
@@ -1395,10 +1696,11 @@ func (l *c22Leg) runCase(ci int) {
 	if l.kind == "etcd" {
 		rng = r.Rand(1000000 + ci)
 	}
-	specs, steps := c22GenCase(rng, l.kind, "default", ci)
+	cs := c22GenCase(rng, l.kind, "default", ci)
+	specs, steps := cs.Specs, cs.Steps
 	cacheOn := rng.Intn(2) == 0
 	caseID := fmt.Sprintf("c%d", ci)
-	w, err := c22NewWorld(l.kind, l.etcd, cacheOn)
+	w, err := c22NewWorld(l.kind, l.etcd, cacheOn, cs.AutoParts)
 	if err != nil {
 		l.count("cases_abandoned_environment", 1)
 		return
@@ -1412,6 +1714,10 @@ func (l *c22Leg) runCase(ci int) {
 	}
 	witness := func(extra map[string]any) map[string]any {
 		m := map[string]any{"store": l.kind, "case": ci, "segment_cache": cacheOn, "topics": specs, "trace": out.trace}
+		if cs.Family {
+			m["auto_create_partitions"] = cs.AutoParts
+			m["partition_pairs_that_read_alike"] = c22PairStrings(cs)
+		}
 		acc := map[string]string{}
 		for _, ts := range out.topics {
 			switch {
@@ -1468,12 +1774,42 @@ func (l *c22Leg) runCase(ci int) {
 			full++
 		}
 	}
-	r.Case(l.kind+" "+strings.Join(shapes, " "), full >= 2)
+	sig := l.kind + " " + strings.Join(shapes, " ")
+	if cs.Family {
+		// a family case is told apart by how its names relate and by which pairs were exercised
+		var rel []string
+		exercised := 0
+		for _, p := range cs.Pairs {
+			a, b := out.topics[p.A], out.topics[p.B]
+			l.count("alike_partition_pairs_planned", 1)
+			if a.accepted && b.accepted && a.done[fmt.Sprintf("p%d", p.PA)] && b.done[fmt.Sprintf("p%d", p.PB)] {
+				exercised++
+				l.count("alike_partition_pairs_produced_to_on_both_sides", 1)
+				l.count("alike_pairs_"+p.How, 1)
+				rel = append(rel, fmt.Sprintf("%s:%d/%d", p.How, p.PA, p.PB))
+			}
+		}
+		sort.Strings(rel)
+		sig = l.kind + " family " + strings.Join(shapes, " ") + " " + strings.Join(rel, " ")
+		l.count("family_cases", 1)
+		if exercised > 0 {
+			l.count("family_cases_with_alike_pairs_exercised", 1)
+		}
+		for _, ts := range accepted {
+			l.seen("family_partition_counts", fmt.Sprint(ts.spec.NP))
+			for _, p := range ts.spec.Parts {
+				if p >= 10 {
+					l.count("family_partitions_ge_10_used", 1)
+				}
+			}
+		}
+	}
+	r.Case(sig, full >= 2)
 	l.count("probes", int64(out.probes))
 	l.count("restarts", int64(out.restarts))
 	l.count("commits_by_store_call_fallback", int64(out.fallback))
-	if ci == 0 || ci == len(c22TemplatesFor(l.kind)) {
-		r.Sample(witness(nil))
+	if ntpl := len(c22TemplatesFor(l.kind)); ci == 0 || ci == ntpl || ci == ntpl-4 || ci == ntpl+3 {
+		r.Sample(witness(nil)) // first template, first family template, first generated case, first generated family
 	}
 
 	// rules (1)-(3): key sets of every pair of accepted topics
@@ -1534,7 +1870,7 @@ func (l *c22Leg) runCase(ci int) {
 	for _, dev := range out.devs {
 		a := out.topics[dev.T]
 		l.count("deviations_seen", 1)
-		cw, err := c22NewWorld(l.kind, l.etcd, cacheOn)
+		cw, err := c22NewWorld(l.kind, l.etcd, cacheOn, cs.AutoParts)
 		if err != nil {
 			l.count("deviations_not_judged_environment", 1)
 			continue
@@ -1587,18 +1923,20 @@ func TestVerifC22(t *testing.T) {
 	}()
 	// part 1: InMemoryStore
 	mem := &c22Leg{r: r, kind: "mem"}
-	n := r.N(200, 3000)
+	n := r.N(264, 3600)
 	for ci := 0; ci < n; ci++ {
 		mem.runCase(ci)
 	}
 	r.Floor("pairs_judged", 40)
+	r.Floor("alike_partition_pairs_produced_to_on_both_sides", 40)
+	r.Floor("family_partitions_ge_10_used", 40)
 	r.Floor("s3_keys_written_observed", 400)
 	r.Floor("probes", 1000)
 
 	// part 2: EtcdStore over an embedded etcd
 	e := c22StartEtcd(t)
 	et := &c22Leg{r: r, kind: "etcd", etcd: e}
-	n = r.N(20, 160)
+	n = r.N(28, 200)
 	deadline := time.Now().Add(4 * time.Minute)
 	if r.Thorough() {
 		deadline = time.Now().Add(20 * time.Minute)
@@ -1611,6 +1949,7 @@ func TestVerifC22(t *testing.T) {
 		et.runCase(ci)
 	}
 	r.Floor("etcd_pairs_judged", 8)
+	r.Floor("etcd_alike_partition_pairs_produced_to_on_both_sides", 6)
 	r.Floor("etcd_etcd_keys_touched_observed", 60)
 	r.Floor("etcd_probes", 100)
 }
